@@ -19,7 +19,7 @@ def toC09Kind : Kind → XalanModel.C09.Kind
 
 /-- the document as C09's matcher sees it: the node table in document order (type, name, parent) -/
 def toC09 (d : Doc) : XalanModel.C09.Doc :=
-  ⟨d.nodes.toList.map fun n => ⟨toC09Kind n.kind, n.name, n.parent.getD 0⟩⟩
+  { nodes := d.nodes.toList.map fun n => ⟨toC09Kind n.kind, n.name, n.parent.getD 0⟩ }
 
 theorem idx_lt_size (k : Nat) (r : Raw) (n : CNode) (hn : n ∈ (Doc.ofRaw k r).tree.docOrder) :
     n.idx < (toC09 (Doc.ofRaw k r)).size := by
